@@ -16,15 +16,16 @@ func run(c *core.C) {
 	mk := func(p tmworld.Params, adv, rec int, uses bool) *tmworld.Scenario {
 		// with the use operations the complete update alphabet stays enabled on an inactive client (gating);
 		// the deep part keeps two update canaries and one misbehaviour canary there
-		return tmworld.New(tmworld.Config{P: p, MaxAdv: adv, MaxRec: rec, Mis: true, Uses: uses, FullInactive: uses}, or)
+		// (quick: the deep part also leaves misbehaviour submissions to the part with the use operations)
+		return tmworld.New(tmworld.Config{P: p, MaxAdv: adv, MaxRec: rec, Mis: uses || !c.Quick(), Uses: uses, FullInactive: uses, CrossRev: true}, or)
 	}
 	parts := []ksim.Part{
-		{Name: "status-and-uses", Sc: mk(tmworld.Params{Rev: 1, Base: 0, N: n}, 3, 2, true), Cfg: ksim.Config{MaxDepth: 4 + d}, Share: 0.6},
-		{Name: "status-deep/no-use-ops", Sc: mk(tmworld.Params{Rev: 1, Base: 0, N: n}, core.Pick(c, 3, 4), 2, false), Cfg: ksim.Config{MaxDepth: 5 + d}, Share: 0.8},
+		{Name: "virt-2/status-and-uses", Sc: mk(tmworld.Params{Rev: 2, Base: 0, N: n}, 3, 2, true), Cfg: ksim.Config{MaxDepth: 4 + d}, Share: 0.6},
+		{Name: "virt-2/status-deep/no-use-ops", Sc: mk(tmworld.Params{Rev: 2, Base: 0, N: n}, core.Pick(c, 2, 4), core.Pick(c, 1, 2), false), Cfg: ksim.Config{MaxDepth: 5 + d}, Share: 0.8},
 		{Name: "rev47/heights-12031..(12032=0x2f00)", Sc: mk(tmworld.Params{Rev: 47, Base: 12030, N: n}, 2, 1, true), Cfg: ksim.Config{MaxDepth: 3 + d}},
 	}
 	ksim.RunParts(c, parts, [][]ksim.Op{
-		{{K: "adv", A: []int{1}}, {K: "use-send", A: []int{1}}, {K: "rec", A: []int{0}}, {K: "use-verify", A: []int{6}}},
+		{{K: "adv", A: []int{1}}, {K: "use-send", A: []int{1}}, {K: "rec", A: []int{2}}, {K: "rec", A: []int{3}}, {K: "use-verify", A: []int{91}}},
 		{{K: "upd", A: []int{2, 0, 1}}, {K: "upd", A: []int{2, 1, 1}}, {K: "use-recv", A: []int{2}}, {K: "rec", A: []int{0}}, {K: "upd", A: []int{3, 0, 2}}},
 	})
 	tmworld.Describe(c)
